@@ -79,10 +79,17 @@ type Spec struct {
 	Chunks int     `json:"chunks,omitempty"`
 	// Pre - the same Graph object is first run once with PreTasks trivial independent tasks under limit PreMaxPar
 	// (uncontrolled, not logged); only then the history is applied, the limit is set to MaxPar and the monitored run starts.
-	PreTasks   int `json:"pre_tasks,omitempty"`
-	PreMaxPar  int `json:"pre_maxpar,omitempty"`
-	SerialMask int `json:"serial_mask,omitempty"` // bit g set: graph g of a shared-task workload runs in serial mode
-	NGraphs    int `json:"ngraphs,omitempty"`     // >1: several graphs over the same Tasks run concurrently (eager only)
+	PreTasks    int  `json:"pre_tasks,omitempty"`
+	PreMaxPar   int  `json:"pre_maxpar,omitempty"`
+	SerialMask  int  `json:"serial_mask,omitempty"`  // bit g set: graph g of a shared-task workload runs in serial mode
+	PreFail     bool `json:"pre_fail,omitempty"`     // one task of the preliminary run fails: the graph has recorded an error
+	Deadline    bool `json:"deadline,omitempty"`     // the context ends with DeadlineExceeded instead of Canceled (custom Context)
+	CtxErrs     bool `json:"ctx_errs,omitempty"`     // failing tasks return errors that wrap context.Canceled / DeadlineExceeded (their own timeouts)
+	Literal     bool `json:"literal,omitempty"`      // tasks are built as &dag.Task{ID, Fn} literals instead of dag.NewTask
+	ChunkBytes  int  `json:"chunk_bytes,omitempty"`  // filler bytes per output chunk (large outputs)
+	SortAt      int  `json:"sort_at,omitempty"`      // >0: DepthFirstSort is also called after that many construction calls
+	WriterFails bool `json:"writer_fails,omitempty"` // the output writer returns an error on every second write
+	NGraphs     int  `json:"ngraphs,omitempty"`      // >1: several graphs over the same Tasks run concurrently (eager only)
 }
 
 // Model - what the history is supposed to mean (from the documented API semantics).
@@ -320,12 +327,28 @@ var graphKey = graphKeyT{}
 type plainWriter struct {
 	buf    []byte
 	writes int
+	fails  bool
 }
 
 func (w *plainWriter) Write(p []byte) (int, error) {
 	w.buf = append(w.buf, p...)
 	w.writes++
+	if w.fails && w.writes%2 == 0 {
+		return len(p) / 2, errWriter
+	}
 	return len(p), nil
+}
+
+var errWriter = errors.New("verif: output writer failure")
+
+// deadlineCtx - a context that reports DeadlineExceeded when its parent is cancelled (a deadline, from the scheduler's point of view).
+type deadlineCtx struct{ context.Context }
+
+func (d deadlineCtx) Err() error {
+	if d.Context.Err() != nil {
+		return context.DeadlineExceeded
+	}
+	return nil
 }
 
 type lineRecorder struct {
@@ -465,6 +488,9 @@ func (r *runner) taskFn(i int) getoptions.CommandFn {
 					w = dag.Stderr(ctx)
 				}
 				fmt.Fprintf(w, "<g%d:t%d:%d:%d/%d>", gi, i, attempt, k, n)
+				if r.spec.ChunkBytes > 0 {
+					w.Write(bytes.Repeat([]byte{'.'}, r.spec.ChunkBytes))
+				}
 				runtime.Gosched()
 			}
 		}
@@ -498,14 +524,26 @@ func (r *runner) build(gi int, tasks []*dag.Task) *dag.Graph {
 	g.UseColor = false
 	if r.spec.PreTasks > 0 {
 		for k := 0; k < r.spec.PreTasks; k++ {
-			g.AddTask(dag.NewTask(fmt.Sprintf("pre%d", k), func(context.Context, *getoptions.GetOpt, []string) error { return nil }))
+			fail := r.spec.PreFail && k == 0
+			g.AddTask(dag.NewTask(fmt.Sprintf("pre%d", k), func(context.Context, *getoptions.GetOpt, []string) error {
+				if fail {
+					return errors.New("verif: preliminary task failure")
+				}
+				return nil
+			}))
 		}
 		if r.spec.PreMaxPar > 0 {
 			g.SetMaxParallel(r.spec.PreMaxPar)
 		}
 		r.preErr = g.Run(context.Background(), nil, nil)
+		if r.spec.PreFail {
+			r.preErr = nil // expected to fail
+		}
 	}
-	for _, c := range r.spec.Hist {
+	for ci, c := range r.spec.Hist {
+		if r.spec.SortAt > 0 && ci == r.spec.SortAt {
+			_, _ = g.DepthFirstSort() // a caller may sort (or validate) a graph it is still building
+		}
 		switch c.Op {
 		case "add":
 			g.AddTask(tasks[c.A])
@@ -545,7 +583,7 @@ func Execute(spec *Spec) *Trace {
 	if ng < 1 {
 		ng = 1
 	}
-	r := &runner{spec: spec, model: BuildModel(spec.N, spec.Hist), rng: spec.PSeed*2654435761 + 12345, out: &plainWriter{}}
+	r := &runner{spec: spec, model: BuildModel(spec.N, spec.Hist), rng: spec.PSeed*2654435761 + 12345, out: &plainWriter{fails: spec.WriterFails}}
 	r.cells = make([]int, spec.N)
 	r.taskCounters = make([]int, spec.N)
 	r.attempts = make([][]int32, ng)
@@ -553,7 +591,14 @@ func Execute(spec *Spec) *Trace {
 		r.attempts[g] = make([]int32, spec.N)
 	}
 	for i := 0; i < spec.N; i++ {
-		r.sentinels = append(r.sentinels, fmt.Errorf("verif sentinel error of task t%d", i))
+		switch {
+		case spec.CtxErrs && i%3 == 1:
+			r.sentinels = append(r.sentinels, fmt.Errorf("verif sentinel error of task t%d (own timeout): %w", i, context.DeadlineExceeded))
+		case spec.CtxErrs && i%3 == 2:
+			r.sentinels = append(r.sentinels, fmt.Errorf("verif sentinel error of task t%d (own cancel): %w", i, context.Canceled))
+		default:
+			r.sentinels = append(r.sentinels, fmt.Errorf("verif sentinel error of task t%d", i))
+		}
 	}
 	rec := &lineRecorder{}
 	dag.Logger.SetOutput(rec)
@@ -564,7 +609,11 @@ func Execute(spec *Spec) *Trace {
 	id := atomic.AddUint64(&runCounter, 1)
 	tasks := make([]*dag.Task, spec.N)
 	for i := range tasks {
-		tasks[i] = dag.NewTask(fmt.Sprintf("t%d", i), r.taskFn(i))
+		if spec.Literal {
+			tasks[i] = &dag.Task{ID: dag.ID(fmt.Sprintf("t%d", i)), Fn: r.taskFn(i)}
+		} else {
+			tasks[i] = dag.NewTask(fmt.Sprintf("t%d", i), r.taskFn(i))
+		}
 	}
 	tr := &Trace{}
 	graphs := make([]*dag.Graph, ng)
@@ -609,7 +658,11 @@ func Execute(spec *Spec) *Trace {
 	}
 	resCh := make(chan runRes, ng)
 	for gi := 0; gi < ng; gi++ {
-		gctx := context.WithValue(ctx, graphKey, gi)
+		var base context.Context = ctx
+		if spec.Deadline {
+			base = deadlineCtx{ctx}
+		}
+		gctx := context.WithValue(base, graphKey, gi)
 		r.log(Event{Kind: EvRunStart, Graph: gi})
 		go func(gi int, g *dag.Graph) {
 			err := g.Run(gctx, nil, nil)
